@@ -1,0 +1,14 @@
+//go:build verif
+
+// Contracts for package logger, checked by /verif/govc (comment-only file).
+
+package logger
+
+// GetLogger defers an Unlock inside a conditional, which is outside the subset of
+// govc's defer model, so this contract is TRUSTED (listed as an assumption in the
+// evidence of every check that uses it): it returns a non-nil entry and changes
+// no state that any contract talks about.
+//@ func GetLogger
+//@   trusted
+//@   modifies nothing
+//@   ensures ret != nil
